@@ -16,3 +16,24 @@ Fixpoint names_match (a b : list string) : bool :=
 (* both formats store the same attributes, up to the listed exceptions *)
 Definition fields_agree (json bin exc : list string) : bool :=
   str_subset json (bin ++ exc) && str_subset bin (json ++ exc).
+
+(* is the shape of the expression serialize() stores under a key the one the derived JSON op assumes? *)
+Definition shape_ok (derived extracted : string) : bool :=
+  let plain := (extracted =? "plain")%string in
+  let plist := plain || (extracted =? "list-plain")%string in
+  if (derived =? "JI")%string || (derived =? "JS")%string || (derived =? "JB")%string
+     || (derived =? "JOpt JS")%string || (derived =? "JOpt JI")%string then plain
+  else if (derived =? "JList JS")%string || (derived =? "JList JI")%string then plist
+  else if (derived =? "JNested")%string then (extracted =? "nested")%string
+  else if (derived =? "JOpt JNested")%string then (extracted =? "opt-nested")%string
+  else if (derived =? "JList JNested")%string then (extracted =? "list-nested")%string
+  else if (derived =? "JPairs JNested")%string then (extracted =? "pairs-nested")%string
+  else if (derived =? "JFlagsNames")%string then (extracted =? "flags")%string
+  else false.
+Fixpoint str_assoc {A} (k : string) (l : list (string * A)) : option A :=
+  match l with [] => None | (k', v) :: r => if (k' =? k)%string then Some v else str_assoc k r end.
+Definition class_shapes_ok (tbl : list (string * list (string * (string * string)))) (c : string) : bool :=
+  match str_assoc c tbl with
+  | Some rows => forallb (fun row => shape_ok (fst (snd row)) (snd (snd row))) rows
+  | None => false
+  end.
